@@ -82,13 +82,19 @@ func formatNumberUnitShort[T NumberType](amount T, unit *UnitDefinition, display
 	case float64:
 		formatString = "%f"
 	}
+	formatted := fmt.Sprintf(formatString, amount)
+	if strings.Contains(formatted, ".") {
+		// Drop the insignificant zeros of the fraction, then the decimal point if nothing is left of it.
+		// Zeros of the integer part are significant and must stay.
+		formatted = strings.TrimRight(strings.TrimRight(formatted, "0"), ".")
+	}
 	switch {
 	case amount == 1 || amount == -1:
-		return strings.TrimRight(fmt.Sprintf(formatString, amount), "0.") + unit.NameShortSingular()
+		return formatted + unit.NameShortSingular()
 	case amount != 0:
-		return strings.TrimRight(fmt.Sprintf(formatString, amount), "0.") + unit.NameShortPlural()
+		return formatted + unit.NameShortPlural()
 	case displayZero:
-		return strings.TrimRight(fmt.Sprintf(formatString, amount), "0.") + unit.NameShortPlural()
+		return formatted + unit.NameShortPlural()
 	default:
 		return ""
 	}
